@@ -3,6 +3,15 @@ Oracle (independent of the Lean model): the bytes produced by the real writer mu
 computed here (little-endian two's complement, unsigned LEB128 of the 32-bit pattern, LEB128 length prefix + raw bytes),
 an independent Python decoder applied to those bytes must give back the written values, and the real reader's read-back
 must return every written value with Position() advancing by exactly the encoded size."""
+import os
+import random
+import struct
+import subprocess
+import time
+import zlib
+
+from . import common as C
+from . import runner as R
 from .runner import Spec
 
 WIDTH = {"h": 2, "i": 4, "l": 8}
@@ -86,6 +95,33 @@ def decode(t, p, data, pos):
     raise ValueError(t)
 
 
+def block_crc(block):
+    """CRC-32 of the documented observations of the 2^16 int32 patterns of a block (harness/cmd/c11/range.go):
+    per value: wire bytes (LE32 + LEB128) | value LE32 | position 4 | value LE32 | position 4+len(LEB128)"""
+    parts = []
+    base = block << 16
+    pk = struct.pack
+    for k in range(65536):
+        u = base | k
+        f = pk("<I", u)
+        l = leb128(u)
+        parts.append(f + l + f + b"\x04" + f + bytes([4 + len(l)]))
+    return zlib.crc32(b"".join(parts))
+
+
+def block_lines(block):
+    """the 2^16 values of a block as per-value script lines (16 values, fixed + 7-bit, per line)"""
+    out, toks = [], []
+    for k in range(65536):
+        u = (block << 16) | k
+        v = u - (1 << 32) if u >= 1 << 31 else u
+        toks.append("i:%d ; v:%d" % (v, v))
+        if len(toks) == 16:
+            out.append("seq | " + " ; ".join(toks))
+            toks = []
+    return out
+
+
 def parse_script(script):
     head, body = script.split("|", 1)
     toks = []
@@ -108,7 +144,9 @@ class C11(Spec):
             "fresh stream with the real writer, Bytes() printed, then the matching reads with the real reader (value and "
             "Position() after each). Generated: all bool/byte/int16 values; int32 (fixed and 7-bit of the same value): "
             "boundaries 2^(7k)+-2, 2^(8k)+-2, all 7-bit group patterns over boundary digits, values with <= 2 non-trivial byte "
-            "lanes over 00/ff background (quick: 1/2 sample, thorough: all 786432), random; int64 boundary/lane/random; "
+            "lanes over 00/ff background (quick: 1/2 sample, thorough: all 786432), random; whole blocks of 2^16 consecutive int32 "
+            "patterns folded into one CRC per block (quick 20, thorough 128 in the compared script + 3072 more in parallel shards; "
+            "VERIF_C11_SWEEP=full sweeps all 2^32); int64 boundary/lane/random; "
             "bytes/strings with lengths across 127/128, 16383/16384 (thorough also 2^21) and non-UTF-8 content; random typed "
             "sequences. distinct by script line; non-trivial = at least one value whose encoding has more than one byte")
     trusted_base = ["convert.String/convert.Bytes modelled as identity on the byte sequence (unsafe cast, not verified)",
@@ -120,6 +158,15 @@ class C11(Spec):
     def oracle(self, script, impl):
         if impl.startswith("panic") or impl.startswith("<"):
             return ("panic", "codec panicked or did not return: " + impl[:200])
+        if script.startswith("range32 "):
+            block = int(script.split()[1])
+            want = "crc=%08x" % block_crc(block)
+            if impl != want:
+                return ("block-hash", "some int32 in [%d, %d] (bit patterns of block %d) is not written in the documented wire "
+                        "format or not read back: block CRC %s, documented %s" % (
+                            (block << 16) - ((1 << 32) if block >= 32768 else 0),
+                            ((block << 16) | 0xFFFF) - ((1 << 32) if block >= 32768 else 0), block, impl[:40], want))
+            return None
         toks = parse_script(script)
         parts = impl.split(" | ")
         if len(parts) != 3 or not parts[0].startswith("bytes="):
@@ -169,7 +216,101 @@ class C11(Spec):
         return None
 
     def nontrivial(self, script, impl):
+        if script.startswith("range32 "):
+            return True
         return any(t not in ("b", "y") for t, _ in parse_script(script))
+
+    # ---------------------------------------------------------------- range protocol: pinpointing and the parallel sweep
+    def _sweep(self, ctx, blocks):
+        """run `range32` lines for the given blocks on harness and driver in parallel shards; returns (mismatching blocks, info)"""
+        t0 = time.time()
+        binp, err = C.build_harness(self.harness, self.tags)
+        if binp is None:
+            return [], {"error": "harness does not build"}
+        nshard = max(1, min(C.NCPU, 16, len(blocks)))
+        base = C.fresh_dir(os.path.join(C.BUILD, "run", self.id + "-sweep"))
+        dirs = []
+        procs = []
+        for k in range(nshard):
+            d = os.path.join(base, "s%02d" % k)
+            os.makedirs(d)
+            with open(os.path.join(d, "in.txt"), "w") as fh:
+                fh.write("".join("range32 %d\n" % b for b in blocks[k::nshard]))
+            dirs.append(d)
+            procs.append(subprocess.Popen([binp, "-seed", "1", "-tier", "quick", "-out", d, "-replay", os.path.join(d, "in.txt")],
+                                          env=C.GOENV, stdout=subprocess.DEVNULL, stderr=subprocess.DEVNULL))
+        for p in procs:
+            p.wait()
+        procs = []
+        for d in dirs:
+            fin = open(os.path.join(d, "script.txt"))
+            fout = open(os.path.join(d, "model.txt"), "w")
+            procs.append((subprocess.Popen([C.driver_path(self.driver)] + self.driver_args, stdin=fin, stdout=fout,
+                                           stderr=subprocess.DEVNULL), fin, fout))
+        for p, fin, fout in procs:
+            p.wait()
+            fin.close()
+            fout.close()
+        bad, checked, oracle_checked = [], 0, 0
+        oracle_budget = int(os.environ.get("VERIF_C11_SWEEP_ORACLE", "128"))
+        for d in dirs:
+            sc = R._read_lines(os.path.join(d, "script.txt"))
+            im = R._read_lines(os.path.join(d, "impl.txt"))
+            mo = R._read_lines(os.path.join(d, "model.txt"))
+            for i, s in enumerate(sc):
+                b = int(s.split()[1])
+                a = im[i] if i < len(im) else "<none>"
+                m = mo[i] if i < len(mo) else "<none>"
+                checked += 1
+                if a != m:
+                    bad.append(b)
+                elif oracle_checked < oracle_budget and i % max(1, len(sc) * nshard // max(1, oracle_budget)) == 0:
+                    oracle_checked += 1
+                    if self.oracle(s, a) is not None:
+                        bad.append(b)
+        info = {"blocks": checked, "values": checked * 65536, "shards": nshard, "mismatching_blocks": bad[:20],
+                "blocks_also_checked_by_python_oracle": oracle_checked, "wall_s": round(time.time() - t0, 1)}
+        return bad, info
+
+    def extra(self, ctx):
+        ex = ctx.get("ex")
+        if ex is None or "build_error" in ex:
+            return
+        bad = []
+        for i, s in enumerate(ex.get("script", [])):
+            if s.startswith("range32 "):
+                im = ex["impl"][i] if i < len(ex["impl"]) else ""
+                mo = ex["model"][i] if i < len(ex["model"]) else ""
+                if im != mo or self.oracle(s, im) is not None:
+                    bad.append(int(s.split()[1]))
+        # thorough tier: parallel sweep over many more blocks (VERIF_C11_SWEEP=full: all 65536 = every int32 value,
+        # about half an hour on 16 cores; VERIF_C11_SWEEP=<n>: n blocks; default 3072 blocks = 2e8 values; 0 = off)
+        if ctx["tier"] == "thorough" and os.path.exists(C.driver_path(self.driver)):
+            mode = os.environ.get("VERIF_C11_SWEEP", "3072")
+            if mode == "full":
+                blocks = list(range(65536))
+            else:
+                n = max(0, min(65536, int(mode)))
+                blocks = random.Random(ctx["seed"] * 7919 + 11).sample(range(65536), n)
+            if blocks:
+                sbad, info = self._sweep(ctx, blocks)
+                ctx["coverage"]["int32_block_sweep"] = info
+                if sbad:
+                    ctx["broken"].append({"layer": "L2", "what": "range sweep: implementation and model (or the documented format) "
+                                          "differ on int32 blocks %s" % sbad[:10]})
+                    bad += sbad
+        # pinpoint: re-run a failing block value by value to obtain the concrete failing value
+        for b in bad[:2]:
+            path = os.path.join(C.BUILD, "block-%s-%d.txt" % (self.id, b))
+            with open(path, "w") as fh:
+                fh.write("\n".join(block_lines(b)) + "\n")
+            ex2 = R.execute(self, os.path.join(C.BUILD, "run", self.id + "-block"), "quick", ctx["seed"], replay=path)
+            if "build_error" in ex2:
+                break
+            _, fails, _, _ = R.analyse(self, ex2)
+            if fails:
+                ctx["concrete"][:0] = fails[:5]
+                break
 
 
 SPEC = C11()
